@@ -23,6 +23,22 @@ def app(prop, theorems, explanation, assumptions, facts=None):
 
 
 PROPS = {
+    "C14": {
+        "module": "Shutter.Properties.C14",
+        "theorems": ["C14_roundtrip", "C14_uint_strict", "C14_expect_length", "C14_names_checked"],
+        "driver": {"pkg": "./cmd/evcheck"},
+        "trusted_base": [KERNEL, CORR,
+                         "modelled, not verified: strconv.FormatUint/ParseUint (base 10), hexutil.Encode/Decode, hex.DecodeString, "
+                         "strings.Split/Join, common.IsHexAddress are re-implemented in the model from their documentation; "
+                         "Address.Hex (EIP-55/keccak), secp256k1 key and BLS G2 point encodings are oracles supplied by the driver"],
+        "explanation": "Theorems (Lean): for every event value of all eight types within the value domain (uint64, 20-byte addresses, "
+                       "byte strings, normalised big integers, valid keys/points) decode(encode(x)) = x, by composing concrete round-trip "
+                       "proofs of the decimal, hex and comma-list codecs; accepted integers denote exactly their value; positional "
+                       "attribute access is in range; unknown types are errors. The real MakeABCIEvent/MakeEvent are compared with the "
+                       "model in both directions on generated values and on mutated attribute lists (recover() around the decoder).",
+        "assumptions": ["attribute strings are ASCII (protobuf strings are valid UTF-8; non-ASCII input is not generated)",
+                        "oracle laws: the checksummed text of an address parses back to it; key/point encodings round-trip"],
+    },
     "C13": app(
         "C13",
         ["C13_replay", "C13_commit_pure", "C13_saved_height", "C13_atomic_save", "C13_persist_order_pinned"],
